@@ -163,6 +163,20 @@ func (w *gzipResponseWriter) Write(b []byte) (int, error) {
 	return n, err
 }
 
+// Flush implements http.Flusher. Flushing commits the response header,
+// so the compression headers are set first if that has not happened yet;
+// what the compressor has buffered is then passed on before the
+// underlying writer is flushed.
+func (w *gzipResponseWriter) Flush() {
+	if !w.statusCodeWritten {
+		w.WriteHeader(http.StatusOK)
+	}
+	if gzWriter, ok := w.internalWriter.(*gzip.Writer); ok {
+		gzWriter.Flush()
+	}
+	w.ResponseWriterWrapper.Flush()
+}
+
 //Writer use a lazy way to initialize Writer
 func (w *gzipResponseWriter) Writer() io.Writer {
 	if w.internalWriter == nil {
